@@ -338,6 +338,7 @@ func constPolicy(a dns.MsgAcceptAction) dns.MsgAcceptFunc {
 }
 
 func c14Spaces(c *fw.Ctx) {
+	defer c14RestartSpace(c)
 	transports := []string{"pc", "tcp"}
 	counts := []int{0, 1, 2, 3}
 	nsCounts := []int{0, 2, 3}
